@@ -6,6 +6,8 @@ import Mathlib.Data.Fin.VecNotation
 import Mathlib.Tactic.FieldSimp
 import Mathlib.Tactic.Linarith
 import Mathlib.Algebra.Order.Field.Basic
+import Votca.Lemmas.C15Field
+import Mathlib.Analysis.SpecialFunctions.Sqrt
 /-! # C15 — property theorems: the static multipole interaction is symmetric and matches point-charge physics
 
 About `Votca/Model/C15.lean` (the polynomials of `VSiteA<9>` in the unit vector, `1/R`, `√3` and the spherical
@@ -83,8 +85,7 @@ theorem thole_large_separation (x y z f au3 au3' : Rat) (h' : 40 ≤ au3') : tho
   have hn : ¬ au3' < 40 := not_lt.mpr h'
   by_cases h : au3 < 40 <;> simp [thole, h, hn]
 
-/-! ## rotation invariance for ranks 0 and 1 (rank 2 needs the 5×5 transformation of the spherical quadrupole components: searched
-numerically by the check, not proved) -/
+/-! ## rotation invariance for ranks 0 and 1 over the rationals (no √3 involved); all ranks: end of this file -/
 
 /-- closed form of the pair energy for sites of rank at most 1 (a charge and a dipole each): everything is a dot product -/
 theorem rank1_closed_form (x y z f s qa ax ay az qb bx «by» bz : Rat) :
@@ -119,5 +120,32 @@ example : ∀ u v : Rat × Rat × Rat, dot3 (rot (fun i j => if (i, j) = (0, 1) 
   intro u v
   simp [dot3, rot]
   ring
+
+/-! ## all ranks: Cartesian closed form and rotation invariance (over a field of characteristic zero with `s² = 3`: the reals with `s = √3`) -/
+
+/-- the rational executable model is the field model at `K = ℚ` (so the statements below are about the same function the check runs) -/
+theorem model_is_field_model (x y z f s : ℚ) (A B : Q9) : energy x y z f s A B = energyK x y z f s (toK A) (toK B) :=
+  energy_eq_energyK x y z f s A B
+
+/-- **closed form, all ranks**: the spherical-tensor expression assembled from the generated entries of `eeInteractor::VSiteA` is the
+    Cartesian multipole expansion up to quadrupole–quadrupole (coefficients 1, ∓1, 1/−3, 1, ∓2/±5, 2/3, −20/3, 35/3) -/
+theorem closed_form_all_ranks {K : Type} [Field K] [CharZero K] (x y z f s : K) (A B : Q9K K) (hs : s * s = 3) (hu : x * x + y * y + z * z = 1) :
+    energyK x y z f s A B = Ecl ![x, y, z] f A.q B.q (muK A) (muK B) (thetaK s A) (thetaK s B) :=
+  energy_closed_form x y z f s A B hs hu
+
+/-- **rotation invariance, all ranks**: a common rotation (any matrix with `Rᵀ R = 1`) of the connection direction and of both sites'
+    moments — the quadrupoles through `CalculateCartesianMultipole`, `R Θ Rᵀ`, `CalculateSphericalMultipole` as `StaticSite::Rotate`
+    does it — leaves the pair energy unchanged -/
+theorem rotation_invariant_all_ranks {K : Type} [Field K] [CharZero K] (R : Matrix (Fin 3) (Fin 3) K) (hR : R.transpose * R = 1)
+    (x y z f s : K) (A B : Q9K K) (hs : s * s = 3) (hu : x * x + y * y + z * z = 1) :
+    energyK ((R.mulVec ![x, y, z]) 0) ((R.mulVec ![x, y, z]) 1) ((R.mulVec ![x, y, z]) 2) f s (rotQ R s A) (rotQ R s B) = energyK x y z f s A B :=
+  energyK_rotation_invariant R hR x y z f s A B hs hu
+
+/-- non-vacuity: over the reals `s = √3` has square 3, the direction (0, 3/5, 4/5) is a unit vector, and the quarter turn about z is a rotation -/
+example : Real.sqrt 3 * Real.sqrt 3 = 3 ∧ ((0 : ℝ) * 0 + 3 / 5 * (3 / 5) + 4 / 5 * (4 / 5) = 1) ∧
+    (!![0, -1, 0; 1, 0, 0; 0, 0, 1] : Matrix (Fin 3) (Fin 3) ℝ).transpose * !![0, -1, 0; 1, 0, 0; 0, 0, 1] = 1 := by
+  refine ⟨Real.mul_self_sqrt (by norm_num), by norm_num, ?_⟩
+  ext i j
+  fin_cases i <;> fin_cases j <;> simp [Matrix.mul_apply, Fin.sum_univ_three, Matrix.transpose_apply]
 
 end Votca.C15
